@@ -87,6 +87,47 @@ def run(ctx):
                            "after": fmt.projection.project_any(o3, spec, True) if o3 is not None else {"kind": "none"}})
             ctx.count_case(("twins", i, json.dumps(pth)), nontrivial=True)
         traces.append({"id": "twins%d" % i, "events": events})
+    # forms of the MetaModule section that SunVox writes and this library never does (fewer than 96 mappings, labels without a
+    # terminating NUL), at every depth, stand-alone and in a project: judged by the spec's reader; then two of the mapping
+    # slots the reader had to fill in are edited IN PLACE to different targets (each slot its own: judged like a C06 edit)
+    srcs = []
+    for i in range(3 if q else 30):
+        gen.FORCE_UDC = [5, 30, 70][i % 3]
+        try:
+            mm = gen.rand_module(rnd, cl["MetaModule"], spec, depth=2 if i % 2 else 1, in_project=False)
+        finally:
+            gen.FORCE_UDC = None
+        for k_ in range(int(mm.user_defined_controllers)):
+            if not mm.user_defined[k_].label:
+                mm.user_defined[k_].label = ["Cutoff", "A", "Réso"][k_ % 3]
+        srcs.append(("fmm%d.synth" % i, api.Synth(mm).read(), lambda r: r.module, ["module", 1]))
+        if i % 2 == 0:
+            pj = api.Project()
+            pj.attach_module(mm)
+            srcs.append(("fmm%d.project" % i, pj.read(), lambda r: r.modules[1], ["modules", 2]))
+    for name, data, getmm, pb in srcs:
+        for vname, ed in fmt.meta_foreign_variants(fmt.tlv.to_json_nested(data)):
+            vdata = fmt.tlv.from_json_nested(ed)
+            traces.append({"id": "%s.%s" % (name, vname), "events": [fmt.load_event(vdata, spec)]})
+            ctx.count_case((name, vname), nontrivial=True)
+            if not vname.startswith("mappings"):
+                continue
+            out, lo = fmt.load(vdata)
+            if lo is None:
+                continue
+            events = [{"op": "base", "obj": fmt.projection.project_any(lo, spec, True)}]
+            for slot, nv in ((70, [1, 2]), (80, [2, 1]), (95, [1, 4])):
+                try:
+                    o2 = fmt.load(vdata)[1]
+                    mp = getmm(o2).mappings.values[slot]
+                    mp.module, mp.controller = nv
+                    out, o3 = fmt.load(o2.read())
+                except Exception as e:
+                    out, o3 = "edit-raised:" + type(e).__name__, None
+                events.append({"op": "edit", "kind": "payload.meta-mapping-padded", "path": pb + ["payload", "mappings", slot + 1], "value": nv,
+                               "outcome": out, "w": False, "edited": {"kind": "none"}, "chunks": [],
+                               "after": fmt.projection.project_any(o3, spec, True) if o3 is not None else {"kind": "none"}})
+            traces.append({"id": "%s.%s.edits" % (name, vname), "events": events})
     cans = []
     def canary(name, pred, mut):
         src = next((t for t in traces if pred(t["events"][0])), None)
